@@ -48,6 +48,9 @@ T = {
  "C07": ("fault_enumeration", "fault enumeration on two real endpoints over a frame-granular link: breaks at every frame boundary (exhaustive action sequences to a depth bound) and random walks with fault kinds per end; end-to-end oracle at quiescence (unique ids: received == accepted, in order, once; both ACTIVE; counters agree)", "§4 C07",
          "AsyncFIXClient + AsyncFIXDummyServer with real reader/heartbeat tasks and journals that outlive every connection attempt: ALL action sequences up to depth 8/10 over {send I, send A, deliver to I, deliver to A, break, reconnect} (<= 2 sends per side, <= 2 breaks, pruned by global state hash) and random walks of 30-110 actions with up to 5 breaks (EOF / reset / broken pipe / silent / TimeoutError / OSError on read, failing drain, time passing); then forced reconnect, Logon, delivery of everything in flight, and the comparison.",
          "exhaustive to 2 breaks, random to 5; quiescence bounded (12 rounds); the acceptor learns of a break at the latest when the initiator reconnects"),
+ "C09": ("fault_enumeration", "fault enumeration: graceful stop at every quiescent point and kill at every enumerated SQL / commit / transport boundary of sending and receiving, on two real endpoints with file journals; oracles: counters of a new connection object on the journal vs the live object, end-to-end id comparison across incarnations, per-identity MsgSeqNum reuse from the transport taps, ResendRequests after clean restarts", "§4 C09",
+         "Generated histories (traffic both ways, partial delivery, link breaks with frames in flight, gap fills, SequenceReset-Reset, reset_seq_num, time) are run once to enumerate quiescent points and kill points and then re-run per point: a second Journaler + new connection object must report the live counters at every quiescent point; either side is stopped (with/without Logout) or killed (in-process death: Kill raised at the boundary, nothing more executes, SQLite connection and cursor closed without commit, socket closed), a new object takes over on the same journal file, reconnects and logs on; then no loss / duplication (operation in flight stays open), no outbound number reused for a different message, no ResendRequest after a clean restart.",
+         "process death not power loss; in-process death is validated against real os._exit children in C08; renumbering by agreement (reset_seq_num, application SequenceReset) is not a kill step"),
  "C02": ("exploration", "independent strict framer as oracle on encoder output and on every tapped transport write", "§4 C02",
          "Every byte string the encoder returns for generated messages (incl. non-ASCII) and every write() of a real connection during random session histories is parsed by an independent strict FIX framer (BodyLength/CheckSum recomputed on bytes).",
          "vf.ref.fixwire is the definition of well-formed; empty values tolerated"),
